@@ -58,6 +58,10 @@ def main(tier):
             if m and len(same) < n_into:
                 same.append((40000 + i, re.sub(r"\b%s\b" % m.group(1), "Same", s)))
         cases += same
+        # definitions whose generic parameters use the names the generated code picks for itself (`H`, `Educe__DebugField`):
+        # the name it falls back to has to be a function of the input, not of what was expanded before
+        from . import c19
+        cases += c19.picked_name_defs(orng, n_into, start=50000)[0]
         runs = [attr.expand_real(cases, repeat=repeat)]
         for k in range(procs - 1):
             # a fresh process (fresh hash seeds) that meets the inputs in another order: what was expanded before differs
@@ -121,7 +125,8 @@ def main(tier):
     tie["broken"] = tie["broken"][:3]
     tie["rule"] = ("valid definitions of every trait (pool of the behavioural generators) plus definitions with 2-4 Into targets, plus refused definitions (a sample of the offence clauses of C13 and definitions with "
                    "several independent offences, e.g. two or more different traits each given twice: the diagnostic must be the same one every time), plus "
-                   "a copy of part of the valid pool in which every type is called `Same` (state kept between expansions under a type's name); each "
+                   "a copy of part of the valid pool in which every type is called `Same` (state kept between expansions under a type's name) and "
+                   "definitions whose generic parameters are called `H`, `H_`, `Educe__DebugField`, ... (the fallback names the generated code picks); each "
                    "expanded %d times in one process and once in each of %d further processes (fresh hash seeds, the inputs met in reversed / shuffled order so that earlier expansions differ); all token streams "
                    "and diagnostics must coincide, and the impl order must be the model's; a sample of the accepted inputs is also expanded by the real proc-macro in several rustc "
                    "processes (-Zunpretty=expanded) and the printed expansions compared. distinct_nontrivial = inputs with >=2 impl items" % (repeat + 1, procs - 1))
